@@ -1228,7 +1228,8 @@ impl<'a> World<'a> {
                     } else if !reliable && x < p.p_drop + p.p_dup {
                         parts.push(format!("dup={} gap={}", rng.range(1, 3), rng.log_range(1000, deadline_hint.max(2000))));
                     } else if x < p.p_drop + p.p_dup + p.p_delay {
-                        parts.push(format!("delay={}", rng.log_range(1000, 3 * SEC)));
+                        // up to a few seconds, or (large configured RTOs) up to the order of the request's lifetime
+                        parts.push(format!("delay={}", rng.log_range(1000, (3 * SEC).max(deadline_hint / 2))));
                     } else if x < p.p_drop + p.p_dup + p.p_delay + p.p_delay_huge {
                         // beyond the final time-out
                         parts.push(format!("delay={}", deadline_hint + rng.log_range(1000, 10 * SEC)));
@@ -1330,7 +1331,14 @@ impl<'a> World<'a> {
                         2 => parts.push("lt=401".to_string()),
                         3 => parts.push("lt=accept".to_string()),
                         4 => parts.push(format!("lt=401 algs={}", *rng.pick(&["none", "md5", "sha", "md5sha", "shamd5", "unsup", "unsupsha", "empty", "md5p1", "shap2", "p3sha", "md5p5sha"]))),
-                        5 => parts.push(format!("lt=401 anon={} nonce={}", rng.below(2), *rng.pick(&["plain", "cookie"]))),
+                        5 => {
+                            if rng.chance(1, 2) {
+                                parts.push(format!("lt=401 anon={} nonce={}", rng.below(2), *rng.pick(&["plain", "cookie"])))
+                            } else {
+                                // the server moves the user to another realm (a new challenge for a different realm)
+                                parts.push(format!("lt=401 realm={}", *rng.pick(REALMS)))
+                            }
+                        }
                         6 => parts.push(format!("lt=401 {}", *rng.pick(&["norealm", "nononce", "noerr", "noalgs"]))),
                         _ => parts.push(format!("lt=438 {}", *rng.pick(&["nononce", "norealm", "noerr", "noalgs", "integ=auto"]))),
                     }
